@@ -232,10 +232,14 @@ void exec_op(World& w, const Op& op) {
       Held& h = w.held[held_index(w, op.a[0])];
       const jitmodel::SpanInfo& info = w.model.live[h.rx];
       JitAllocator::Span q;
-      Error err = a.query(Out(q), reinterpret_cast<void*>(h.rx));
-      SIM_CHECK(err == Error::kOk, "c09:query-failed", "query() of a live span start failed with error %u", unsigned(err));
+      // query() is documented to find the allocation that CONTAINS the pointer: half of the queries use a pointer somewhere
+      // inside the span instead of its start
+      size_t inside = (op.a[1] & 1) ? size_t(op.a[2]) % info.size : 0;
+      if (inside) sim::count("c09.probe.query_interior_pointer");
+      Error err = a.query(Out(q), reinterpret_cast<void*>(h.rx + inside));
+      SIM_CHECK(err == Error::kOk, "c09:query-failed", "query() of a pointer %zu bytes into a live span of %zu bytes failed with error %u", inside, info.size, unsigned(err));
       SIM_CHECK(uintptr_t(q.rx()) == info.rx && uintptr_t(q.rw()) == info.rw && q.size() == info.size, "c09:query-mismatch",
-                "query(%#zx) returned rx=%#zx rw=%#zx size=%zu, expected rx=%#zx rw=%#zx size=%zu", size_t(h.rx), size_t(uintptr_t(q.rx())), size_t(uintptr_t(q.rw())), q.size(), size_t(info.rx), size_t(info.rw), info.size);
+                "query(%#zx) returned rx=%#zx rw=%#zx size=%zu, expected rx=%#zx rw=%#zx size=%zu", size_t(h.rx + inside), size_t(uintptr_t(q.rx())), size_t(uintptr_t(q.rw())), q.size(), size_t(info.rx), size_t(info.rw), info.size);
       break;
     }
     case kQueryForeign: case kReleaseForeign: {
